@@ -277,7 +277,7 @@ prop(
     lean_modules=["BloomVerif.Lemmas.FSStore", "BloomVerif.Props.C16"],
     technique="Lean 4 refinement proof (directory-with-inodes model of FileSystemDataStore refines a per-pointer specification for every disciplined call sequence) + proved counterexample for the full statement + call-by-call differential against the real store on a temporary directory with a scripted name draw",
     design_ref="DESIGN.md section 4 C16",
-    text="Partial, with a known finding. Machine-checked: for every sequence of CreateFile (any name-draw script, collisions included), Write, Close, Abort, TombstoneFile, OpenFile in which a pointer is tombstoned only after its writer was closed or aborted, the directory refines the specification "
+    text="Partial, with a known finding. Machine-checked: for every sequence of CreateFile (any name-draw script, collisions included), Write, Close, Abort, TombstoneFile, OpenFile in which a pointer is tombstoned only after its writer was closed or aborted and Abort is not repeated on an unpublished writer that already finished (Abort after a successful Close is allowed and a no-op), the directory refines the specification "
          "(a scan lists exactly the published, untombstoned pointers with exactly their bytes; CreateFile never changes another pointer's files; TombstoneFile leaves neither .dat nor .tmp). The full statement is false of the unchanged code: tombstoning a pointer whose writer is still open frees the name, "
          "a later CreateFile can draw it again, and the first writer's Close then renames over the second writer's file (theorem C16_counterexample; reproduced on the real store by the check; known finding). "
          "The real store is driven through random sequences (disciplined and not) and must equal the model in every call result and in the final raw directory content.",
